@@ -17,7 +17,7 @@ CLAIMS = {
              "satisfaction the choosers return reports locks of the candidate whose stack it carries. End to end on a bounded "
              "family (~60 scripts x every subset of their keys x preimage sets x locks met or not, both modes): the "
              "satisfier, evaluated from its typed syntax tree, returns only witnesses that use owned assets and make the "
-             "specification's script succeed in a reference execution under the reported locks. PsbtInputSatisfier::check_older / check_after are the spent input's own BIP-68 / BIP-65 conditions (grid of sequences, versions, lock times, other inputs final or not; rule shared with C14). The last steps of a direct satisfaction (Satisfaction::try_completing element by element in order, None on the first placeholder that cannot be completed, Miniscript::_satisfy reporting Unavailable / Impossible as CouldNotSatisfy) are a decision table (shared with C17). Descriptor::satisfy stores the returned witness and scriptSig in the TxIn, each in its own field, and leaves it unchanged on failure.",
+             "specification's script succeed in a reference execution under the reported locks. PsbtInputSatisfier::check_older / check_after are the spent input's own BIP-68 / BIP-65 conditions (grid of sequences, versions, lock times, other inputs final or not; rule shared with C14). The last steps of a direct satisfaction (Satisfaction::try_completing element by element in order, None on the first placeholder that cannot be completed, Miniscript::_satisfy reporting Unavailable / Impossible as CouldNotSatisfy) are a decision table (shared with C17). Descriptor::satisfy stores the returned witness and scriptSig in the TxIn, each in its own field, and leaves it unchanged on failure. Every witness element comes from Placeholder::satisfy_self: a key in its own serialization, the signature / preimage held for that very key / hash / leaf (decision table shared with C17).",
         note="Trusted: spec/satisfaction.py, spec/outputs.py; rustc THIR; evaluator semantics (fails closed). Signature "
              "validity, script execution and witness optimisation are not decided.",
         tech=STATIC + "symbolic per-variant template extraction from THIR compared with specification tables",
@@ -29,7 +29,7 @@ CLAIMS = {
              "exact tables; asset-lookup forwarding completeness over all Satisfier impls; malleable entry points reach "
              "malleable internals (call-site rule with reasoned exceptions). End to end on a bounded family (as C01): whenever a "
              "canonical satisfaction exists with the owned assets, the malleable satisfier returns one, and so does the "
-             "non-malleable one for scripts typed non-malleable. The planner's matching of keys against the caller's Assets (is_key_direct_child_of) is an exhaustive table on short paths (rule shared with C17). The map Satisfier impls return the entry for exactly the asked key / hash / leaf.",
+             "non-malleable one for scripts typed non-malleable. The planner's matching of keys against the caller's Assets (is_key_direct_child_of) is an exhaustive table on short paths (rule shared with C17). The map Satisfier impls return the entry for exactly the asked key / hash / leaf. The lock-time types used as satisfiers (Sequence, RelLockTime, relative::LockTime, absolute::LockTime) answer by BIP-68 / BIP-65 implication of the requested lock by the held value (grid).",
         note="Trusted: spec/satisfaction.py; rustc THIR. The witness search itself is not decided.",
         tech=STATIC + "cross-table contradiction rule, finite decision tables from THIR, who-calls-whom mode rule",
         engine="symx+tablex"),
@@ -72,7 +72,7 @@ CLAIMS = {
              "~150) the policy obtained by evaluating the library's parser and lift is true for a set of owned keys, "
              "preimages, nLockTime and nSequence exactly when a canonical witness from those assets makes the "
              "specification's script succeed in the reference execution (every key subset x preimage subset x lock "
-             "threshold). The generic iterators of iter/tree.rs (post-order, right-to-left post-order, pre-order; their Iterator::next evaluated from source) yield exactly the definition's order, indices and child indices on policy trees and every miniscript fragment, and the analyser's model of them used by the other rules is that behaviour (shared rule).",
+             "threshold). The generic iterators of iter/tree.rs (post-order, right-to-left post-order, pre-order; their Iterator::next evaluated from source) yield exactly the definition's order, indices and child indices on policy trees and every miniscript fragment, and the analyser's model of them used by the other rules is that behaviour (shared rule). Miniscript::lift_check, evaluated through within_resource_limits and ScriptContext::check_local_validity in every context, refuses exactly when one of the context's four validity / resource checks fails or the time-lock summary records a mixed path; that summary is, per fragment kind, the join of the right children (table shared with C12 / C18).",
         note="Trusted: spec/semantics.py, spec/msexec.py (reference execution, canonical witnesses), spec/policy_sem.py; "
              "model of generic tree iterators; rustc THIR. Bounded family.",
         tech=STATIC + "symbolic per-variant extraction of the lift fold from THIR compared with a specification table",
@@ -100,7 +100,7 @@ CLAIMS = {
              "mixed-time-lock fold truth table. Decides structurally: polarity (tightening never admits more) and "
              "switch<->defect<->error pairing of every validation switch / limit on decision trees extracted symbolically "
              "from validate / validate_non_top_level for each of the 30 fragment kinds; every parameter is enforced; "
-             "per-context fragment and key tables; entry-point coverage and constructor discipline on MIR. Numbers are in range on every way in: lock times exactly 1 <= n < 2^31 and thresholds 1 <= k <= n <= key limit, through the constructors, the text parser and the script decoder (boundary tables by evaluation). Every typed leaf constructor of Miniscript (pk_k ... sortedmulti_a, TRUE / FALSE: what parser, decoder and compiler use) attaches the type and figures that from_ast computes for the same node, in every context (shared rule). script_num_size and Ctx::pk_len, the byte counts the size switches are applied to, are exact tables (shared with C04). The key-kind predicates (is_uncompressed / is_x_only_key / num_der_paths) of every MiniscriptKey impl of the crate are a checked table; an impl missing from it fails.",
+             "per-context fragment and key tables; entry-point coverage and constructor discipline on MIR. Numbers are in range on every way in: lock times exactly 1 <= n < 2^31 and thresholds 1 <= k <= n <= key limit, through the constructors, the text parser and the script decoder (boundary tables by evaluation). Every typed leaf constructor of Miniscript (pk_k ... sortedmulti_a, TRUE / FALSE: what parser, decoder and compiler use) attaches the type and figures that from_ast computes for the same node, in every context (shared rule). script_num_size and Ctx::pk_len, the byte counts the size switches are applied to, are exact tables (shared with C04). The key-kind predicates (is_uncompressed / is_x_only_key / num_der_paths) of every MiniscriptKey impl of the crate are a checked table; an impl missing from it fails. ScriptContext::other_top_level_checks for every context x fragment kind (bare outputs: p2pk, p2pkh, multi / sortedmulti up to 3 keys only). ExtData's time-lock summary joins, per fragment kind, exactly the children that share a spending path (all combinations of child summaries).",
         note="Trusted: spec/limits.py; rustc THIR/MIR and constant evaluation. Defect predicates are assumed to compute "
              "what their names say; typed infallible combinators are outside the claim.",
         tech=STATIC + "symbolic decision-tree extraction with monotonicity (polarity) check, exact finite tables, MIR must-pass-through and who-may-construct",
@@ -167,7 +167,7 @@ CLAIMS["C16"] = dict(
          "are refused; has_wildcard / is_multipath / into_definite / derive_at_index answer accordingly and "
          "derived_descriptor's keys are derived along exactly those paths; Tr::script_pubkey is OP_1 <output key> and "
          "Tr::address the tweaked-key address of the same key; DescriptorSecretKey::to_public moves exactly the hardened "
-         "prefix into the origin and keeps origin path + path. Descriptor::desc_type / DescriptorType answer the kind the text names (incl. sorted-multi and nested forms). derivation_path(s), DefiniteDescriptorKey::from_str and its accessors / conversions, the secret key's multipath split; find_derivation_index_for_spk as a decision table (first matching index of the range, None, index 0 without wildcard, errors passed on) with DerivationResult and the derived_descriptor / TryFrom glue; into_sorted_bip67(_xonly) / is_sorted_bip67(_xonly) evaluated on all permutations of key sets whose compressed and x-only orders differ.",
+         "prefix into the origin and keeps origin path + path. Descriptor::desc_type / DescriptorType answer the kind the text names (incl. sorted-multi and nested forms). derivation_path(s), DefiniteDescriptorKey::from_str and its accessors / conversions, the secret key's multipath split; find_derivation_index_for_spk as a decision table (first matching index of the range, None, index 0 without wildcard, errors passed on) with DerivationResult and the derived_descriptor / TryFrom glue; into_sorted_bip67(_xonly) / is_sorted_bip67(_xonly) evaluated on all permutations of key sets whose compressed and x-only orders differ. What a key / key-hash push in a script commits to (the key's own serialization; table shared with C04).",
     note="Trusted: spec/outputs.py; rust-bitcoin script/address constructors and BIP-32 child derivation modelled as term "
          "constructors; rustc THIR. BIP32 arithmetic and taproot output keys (C15) are not decided.",
     tech=STATIC + "symbolic extraction of output-script terms compared with a standards table; sibling agreement; dispatch uniformity",
@@ -271,7 +271,7 @@ CLAIMS["C18"] = dict(
          "atoms and representative depth-1 thresholds; ~5-17k policies) against an independent truth-table oracle: "
          "truth tables preserved, idempotence, normal form, order independence of sorted, exact restriction by age / "
          "lock time below / at / above every lock and in the other unit, key counts, entailment == implication on all "
-         "pairs of a sub-family, mixed-lock check == existence of a path needing both units. The generic iterators of iter/tree.rs (post-order, right-to-left post-order, pre-order; their Iterator::next evaluated from source) yield exactly the definition's order, indices and child indices on policy trees and every miniscript fragment, and the analyser's model of them used by the other rules is that behaviour (shared rule).",
+         "pairs of a sub-family, mixed-lock check == existence of a path needing both units. The generic iterators of iter/tree.rs (post-order, right-to-left post-order, pre-order; their Iterator::next evaluated from source) yield exactly the definition's order, indices and child indices on policy trees and every miniscript fragment, and the analyser's model of them used by the other rules is that behaviour (shared rule). The miniscript-side twin of check_timelocks: per fragment kind, which children's time-lock summaries are joined on one path (shared with C12).",
     note="Trusted: spec/policy_sem.py (atoms independent, as the library's entailment treats them); rust-bitcoin lock "
          "comparison on consensus encodings; evaluator; model of the generic tree iterators. Bounded family: deeper / "
          "wider policies are not enumerated.",
@@ -293,7 +293,7 @@ CLAIMS["C11"] = dict(
          "chains) equals the fragment's depth on ~1600 typed fragments. Structural: the parser's depth "
          "pre-check (402 accepted, 403 refused) dominates tree construction; every recursive cycle of the MIR call "
          "graph reachable from an entry point consists of audited functions whose depth that pre-check (or "
-         "from_ast's tree-height check) bounds. The malformed-text family includes characters at the edges of the accepted range (0x1f, DEL, 0x80, NUL, TAB) with and without checksum-shaped suffixes.",
+         "from_ast's tree-height check) bounds. The malformed-text family includes characters at the edges of the accepted range (0x1f, DEL, 0x80, NUL, TAB) with and without checksum-shaped suffixes. Values whose invariant a later unreachable! / expect relies on (DefiniteDescriptorKey, DerivPaths) are built only inside their checking constructor (who-constructs rule at function granularity).",
     note="Trusted: the evaluator's panic semantics and std models; rust-bitcoin models. Descriptor key-expression "
          "parsing (xpub / origin / derivation paths), the planner and allocation sizes are not searched; absence of a "
          "report on the families is not absence of panics.",
@@ -311,7 +311,7 @@ CLAIMS["C06"] = dict(
          "substitutions of the canonical witnesses, and the label predictions are checked: B / V / K / W stack shapes, "
          "z / o / n consumption, u, d, s, f, and that canonical (dis)satisfactions leave non-zero / zero; Type::cast_x "
          "equals type_check of the wrapper on all (cast, child type) pairs (rule shared with C08); the contexts admit "
-         "exactly the fragments / key kinds that can execute under their script rules (rule shared with C12). The leaf family includes the boundary lock values (0, 1, 2^31 - 1, 2^31, unit flags).",
+         "exactly the fragments / key kinds that can execute under their script rules (rule shared with C12). The leaf family includes the boundary lock values (0, 1, 2^31 - 1, 2^31, unit flags). The reference executor enforces the 4-byte limit of numeric operands; the largest lock values appear under the combinators.",
     note="Trusted: spec/typesem.py (label meanings incl. the MINIMALIF assumption), spec/msexec.py, spec/script.py; C05 "
          "(rules == specification) and C04 (encoder == templates) connect the labels and scripts to the library; rustc "
          "THIR; evaluator. `e` and `m` (third-party malleation) and deeper fragments are not decided.",
@@ -359,7 +359,7 @@ CLAIMS["C15"] = dict(
          "branch length = depth and the spend info's key / parity; leaves come in tree order with their own scripts; "
          "parsing / printing (TapTreeBuilder, Display) and translate_pk keep depths and order; TapTree::combine puts "
          "both subtrees one level deeper in order and fails exactly beyond depth 128; to_tap_tree passes exactly the leaves "
-         "(depth, script, version, order) on and is None only without a tree. TapTree::leaves yields every leaf once with its depth from either end, in every interleaving of next / next_back, and len counts the leaves left.",
+         "(depth, script, version, order) on and is None only without a tree. TapTree::leaves yields every leaf once with its depth from either end, in every interleaving of next / next_back, and len counts the leaves left. Taproot descriptor texts whose tree part is not a binary tree are refused; every accepted text's (depth, leaf) list holds each leaf of the text once, in order, and satisfies Kraft's equality.",
     note="Trusted: collision freedom and the byte-level tagged hashes / tweak arithmetic of rust-bitcoin (not decided: "
          "the design round's reason for `not applicable` still applies to that part); rustc THIR; evaluator. Bounded "
          "family of tree shapes.",
